@@ -38,11 +38,16 @@ void check_value(Agg& a, const typename T::Lib& orig, const std::string& cid)
     typename T::Lib back;
     try
     {
-        back = T::dec(blob);
+        back = guarded_dec<T>(blob);
     }
     catch (const std::exception& e)
     {
         a.violation(nm + ".own_encoding_undecodable", nm + " wrote a blob its own decoder rejects: " + std::string(e.what()) + (must ? "" : " [value outside the encodable domain should have been refused]"), cid);
+        return;
+    }
+    catch (const seam::HorizonExceeded& h)
+    {
+        a.violation(nm + ".decoder_does_not_terminate", nm + " decoding its own encoding does not terminate: inflate() called " + std::to_string(h.calls) + " times", cid);
         return;
     }
     catch (...)
